@@ -297,7 +297,7 @@ pub fn format_filesize(size: u64, modifier: &str) -> String {
     if let Some(cap) = FILE_SIZE_FORMAT_REGEX.captures(&modifier) {
         zeroes = cap
             .name("zeroes")
-            .map_or(-1, |m| m.as_str().parse::<i32>().unwrap());
+            .map_or(-1, |m| m.as_str().parse::<i32>().map_or(u16::MAX as i32, |z| z.min(u16::MAX as i32)));
         space = cap.name("space").map_or(false, |m| m.as_str() == " ");
         modifier = cap
             .name("units")
